@@ -17,6 +17,7 @@ CONSTANTS
   GuardFactory = TRUE
   PoisonFAtParser = FALSE
   LateUpgradeReset = TRUE
+  GuardHXOutput = TRUE
   ResumeOnPop = TRUE
   KA = 3
   LG = 1
